@@ -49,7 +49,8 @@ def strategy_case(draw):
     sizes = (1, 2, 3, 4, 5, 6)
     case = {"routine": routine, "dt": dt, "lib_seed": draw(gen.SEED), "seed": draw(gen.SEED),
             "eps": 10 ** draw(st.floats(-12, -1)),
-            "spectrum": draw(st.sampled_from(["randn", "decay", "decay"]))}
+            "spectrum": draw(st.sampled_from(["randn", "decay", "decay"])),
+            "scale_exp": draw(st.sampled_from([0, 0, 0, -6, -3, 3, 6]))}
     if case["spectrum"] == "decay":
         case["rho"] = draw(st.sampled_from([0.5, 0.1, 0.01]))
         case["r"] = draw(st.integers(2, 4))
@@ -126,6 +127,16 @@ def execute(case):
         b = T.TT(core.clone_cores(c2))
         ref = torch.tensordot(dense(c1), dense(c2), dims=d)
         ref_abs = torch.tensordot(dense_abs(c1), dense_abs(c2), dims=d)
+    if case.get("scale_exp", 0):
+        ck.label("scaled:1e%d" % case["scale_exp"])
+        c1[case["seed"] % d] = c1[case["seed"] % d] * (10.0 ** case["scale_exp"])
+        a = T.TT(core.clone_cores(c1))
+        if routine == "dmrg_hadamard":
+            ref = dense(c1) * dense(c2)
+            ref_abs = dense_abs(c1) * dense_abs(c2)
+        else:
+            ref = torch.tensordot(dense(c1), dense(c2), dims=d)
+            ref_abs = torch.tensordot(dense_abs(c1), dense_abs(c2), dims=d)
     if "init_R" in case:
         ck.label("initial_guess")
         ispec = {"N": outN, "R": case["init_R"], "dt": dt, "mode": "gauss", "seed": case["init_seed"]}
